@@ -399,7 +399,7 @@ func c20OpOutcome(rng *proto.Rng, failBias int) (int, *string) {
 		}
 		return 2, nil // skipped
 	default:
-		return 3, sp(proto.Pick(rng, []string{"boom", "forbidden: \"x\" <y> & z", "conflict\nline2", "téléchargement échoué"}))
+		return 3, sp(proto.Pick(rng, []string{"boom", "forbidden: \"x\" <y> & z", "conflict\nline2", "téléchargement échoué", "quota 100% used", "bad path %2Fapi%s", "%!d(string=x) %v"}))
 	}
 }
 
@@ -484,7 +484,7 @@ func c20Gen(rng *proto.Rng, maxGroups, maxIds int) c20In {
 				vids = vids[:2]
 			}
 			in.Events = append(in.Events, c20Ev{T: "validation", Ids: vids, W: rng.Bool(),
-				E: sp(proto.Pick(rng, []string{"metadata.name: Required value", "unknown resource type", "bad \"annotation\""}))})
+				E: sp(proto.Pick(rng, []string{"metadata.name: Required value", "unknown resource type", "bad \"annotation\"", "name 50%off invalid %d"}))})
 		}
 	}
 	// early exit: error instead of the plan event
@@ -528,13 +528,13 @@ func c20Gen(rng *proto.Rng, maxGroups, maxIds int) c20In {
 			pos := initAt + 1 + rng.Intn(len(in.Events)-initAt)
 			id := proto.Pick(rng, ids)
 			se := c20Ev{T: "status", ID: &id, St: proto.Pick(rng, c20Kstatus),
-				M: proto.Pick(rng, []string{"", "Deployment is available. Replicas: 1", "resource \"x\" not found"})}
+				M: proto.Pick(rng, []string{"", "Deployment is available. Replicas: 1", "resource \"x\" not found", "Rollout 50% done (%d/%d)"})}
 			in.Events = append(in.Events[:pos], append([]c20Ev{se}, in.Events[pos:]...)...)
 		}
 	}
 	// final error: always possible; a truncated run usually ends with one
 	if (truncated && rng.Chance(3, 4)) || rng.Chance(1, 8) {
-		in.Events = append(in.Events, c20Ev{T: "error", E: sp(proto.Pick(rng, []string{"context canceled", "task failed (action: \"Inventory\")", "polling for status failed: x"}))})
+		in.Events = append(in.Events, c20Ev{T: "error", E: sp(proto.Pick(rng, []string{"context canceled", "task failed (action: \"Inventory\")", "polling for status failed: x", "disk 99% full: %w"}))})
 	}
 	return in
 }
